@@ -86,12 +86,15 @@ QTLOGGER_DECL_SPEC
 void Logger::processMessage(QtMsgType type, const QMessageLogContext &context,
                             const QString &message)
 {
+    QTLOGGER_VERIF_POINT("logger.before_lock");
 #ifndef QTLOGGER_NO_THREAD
     QMutexLocker locker(mutex());
 #endif
+    QTLOGGER_VERIF_POINT("logger.locked");
 
     LogMessage lmsg(type, context, message);
     process(lmsg);
+    QTLOGGER_VERIF_POINT("logger.processed");
 
     // The process is about to be aborted: make sure buffered sinks reach their files
     if (type == QtFatalMsg) {
